@@ -6,6 +6,8 @@
  *        dest = the middle `size` bytes of an exact-size heap block  [16 guard bytes | size | 16 guard bytes];
  *        the guard zones are compared after the call (writes there are not visible to ASan),
  *        everything outside the block is ASan redzone.  src is an exact-size heap copy.
+ *   strncpy_roomy | strncat_roomy <size> <src> <buf0> = {buf=[..],ret=T|F}   declared size up to INT_MAX, buf0 = the bytes the
+ *        reference models (old string + source + NUL); the block is exactly that long, a guard byte follows
  *   substr  <s> <idx> <cnt>     = [..] | -                      spiftool_substr (NULL = "-")
  *   chomp|condense|down|up|rev <s> = [..]      the in-place helper on an exact-size heap copy of s (len+1 bytes:
  *        byte -1 and byte len+1 are redzone); the returned pointer must be the argument (condense: may be realloc'd)
@@ -22,10 +24,16 @@ static void vh_begin(void) { }
 static void vh_end(void) { }
 static char msg[160];
 
-static const char *copy_op(int cat, const vh_step_t *st, vh_sb *ret) {
-    long size = vh_int(st->args[0]), i; size_t sl, bl;
+static const char *copy_op(int cat, int roomy, const vh_step_t *st, vh_sb *ret) {
+    long size = vh_int(st->args[0]), i; long declared = size; size_t sl, bl;
     unsigned char *src = cu_text(st->args[1], &sl), *b0 = vh_bytes(st->args[2], &bl, 0), *blk, *dest;
     spif_bool_t r; const char *bad = NULL;
+    if (roomy) {
+        /* the declared size is larger than everything that has to be written (up to INT_MAX): the block holds the bl bytes
+         * the reference models, the byte behind them is already a guard byte */
+        if ((long) bl > size || bl < 1) { free(src); free(b0); return "bad_case:roomy_buffer_longer_than_size"; }
+        size = (long) bl;
+    }
     if ((long) bl != size || size < 1) { free(src); free(b0); return "bad_case:buffer_length!=size"; }
     blk = (unsigned char *) malloc((size_t) size + 2 * GUARD);
     memset(blk, GBYTE, (size_t) size + 2 * GUARD);
@@ -36,15 +44,15 @@ static const char *copy_op(int cat, const vh_step_t *st, vh_sb *ret) {
         size_t k;
         memcpy(dest, b0, (size_t) size);
         for (k = 0; k < sl; k++) { unsigned char c = src[k]; src[k] = (unsigned char) ((c == 'q') ? 'r' : 'q'); }
-        if (cat) (void) spiftool_safe_strncat((spif_charptr_t) dest, (spif_charptr_t) src, (spif_int32_t) size);
-        else (void) spiftool_safe_strncpy((spif_charptr_t) dest, (spif_charptr_t) src, (spif_int32_t) size);
+        if (cat) (void) spiftool_safe_strncat((spif_charptr_t) dest, (spif_charptr_t) src, (spif_int32_t) declared);
+        else (void) spiftool_safe_strncpy((spif_charptr_t) dest, (spif_charptr_t) src, (spif_int32_t) declared);
         { unsigned char *again = cu_text(st->args[1], NULL); memcpy(src, again, sl + 1); free(again); }
         memset(blk, GBYTE, (size_t) size + 2 * GUARD);
     }
     errno = ERANGE;
     memcpy(dest, b0, (size_t) size);
-    r = cat ? spiftool_safe_strncat((spif_charptr_t) dest, (spif_charptr_t) src, (spif_int32_t) size)
-            : spiftool_safe_strncpy((spif_charptr_t) dest, (spif_charptr_t) src, (spif_int32_t) size);
+    r = cat ? spiftool_safe_strncat((spif_charptr_t) dest, (spif_charptr_t) src, (spif_int32_t) declared)
+            : spiftool_safe_strncpy((spif_charptr_t) dest, (spif_charptr_t) src, (spif_int32_t) declared);
     for (i = 0; i < GUARD && !bad; i++) {
         if (blk[GUARD - 1 - i] != GBYTE) { snprintf(msg, sizeof(msg), "wrote_before_dest:byte_-%ld", i + 1); bad = msg; }
         else if (blk[GUARD + size + i] != GBYTE) { snprintf(msg, sizeof(msg), "wrote_past_size:byte_size+%ld", i); bad = msg; }
@@ -127,11 +135,13 @@ static const char *aligned_op(const vh_step_t *st, vh_sb *ret) {
     return NULL;
 }
 
-static const char *vh_step(const vh_step_t *st, vh_sb *ret, vh_sb *state) {
+static const char *do_step(const vh_step_t *st, vh_sb *ret, vh_sb *state) {
     const char *op = st->op, *bad;
     sb_putc(state, '-');
-    if (!strcmp(op, "strncpy") && st->nargs == 3) return copy_op(0, st, ret);
-    if (!strcmp(op, "strncat") && st->nargs == 3) return copy_op(1, st, ret);
+    if (!strcmp(op, "strncpy") && st->nargs == 3) return copy_op(0, 0, st, ret);
+    if (!strcmp(op, "strncat") && st->nargs == 3) return copy_op(1, 0, st, ret);
+    if (!strcmp(op, "strncpy_roomy") && st->nargs == 3) return copy_op(0, 1, st, ret);
+    if (!strcmp(op, "strncat_roomy") && st->nargs == 3) return copy_op(1, 1, st, ret);
     if (!strcmp(op, "al") && (st->nargs == 3 || st->nargs == 4)) return aligned_op(st, ret);
     if (!strcmp(op, "substr") && st->nargs == 3) {
         unsigned char *s = cu_text(st->args[0], NULL);
@@ -163,8 +173,12 @@ static const char *vh_step(const vh_step_t *st, vh_sb *ret, vh_sb *state) {
     return msg;
 }
 
+/* every step at every run-time debug level of VH_LEVELS (c12_util.h) */
+static const char *vh_step(const vh_step_t *st, vh_sb *ret, vh_sb *state) { return cu_step_at_levels(do_step, st, ret, state); }
+
 int main(int argc, char **argv) {
     libast_set_program_name("strhelpers_replay");
     DEBUG_LEVEL = 0;
+    cu_levels_init();
     return vh_main(argc, argv, 1);
 }
